@@ -47,6 +47,9 @@ class GotranCCodePrinter(C99CodePrinter):
     def __init__(self, *args, **kwargs):
         super().__init__(*args, **kwargs)
         self._settings["contract"] = False
+        # sympy prints Abs of an integer valued argument (e.g. floor(x)) as the
+        # integer function abs(); every quantity in the generated code is a double
+        self.known_functions["Abs"] = "fabs"
 
     def _print_Float(self, flt):
         return self._print(str(float(flt)))
